@@ -301,7 +301,11 @@ func c16Carousel(c *Ctx) {
 				var elem string
 				storedInto(sliceBase(call.Call.Args[1]), func(e ssa.Value) bool { elem = hfl.K.Key(e); return false })
 				if strings.HasPrefix(elem, "(*hs.Block).Proposer(phi@") {
-					if hasCmp(hfl.At(in), "<", func(k string) bool { return strings.HasPrefix(k, "phi@") }, func(k string) bool {
+					// bounded by a counter that advances with every append, or by the length of the list itself
+					dst := hfl.K.Key(call.Call.Args[0])
+					if hasCmp(hfl.At(in), "<", func(k string) bool {
+						return strings.HasPrefix(k, "phi@") || strings.HasPrefix(k, "builtin len("+dst+")")
+					}, func(k string) bool {
 						return strings.HasPrefix(inGL(hf, k), "hs.NumFaulty((*hs/core.RuntimeConfig).ReplicaCount(")
 					}) {
 						okAuth = true
